@@ -73,6 +73,9 @@ pub struct RawCase {
     pub bytes: Vec<u8>,
     pub flip: Option<u32>,
     pub trunc: Option<u32>,
+    /// seed bytes scanned with the archive's own chunker (fuzz target)
+    #[serde(default)]
+    pub seed: Option<Vec<u8>>,
 }
 
 pub struct Mutated {
@@ -546,7 +549,7 @@ thread_local! {
     static LAST_PANIC: std::cell::RefCell<Option<PanicRec>> = std::cell::RefCell::new(None);
 }
 
-fn run_case_inner(c: &Case, rec: &mut CaseRec, strict: bool) -> Result<(), String> {
+pub fn run_case_inner(c: &Case, rec: &mut CaseRec, strict: bool) -> Result<(), String> {
     if !c.cfg.chunker.is_valid() {
         rec.excluded = Some("invalid_base_config".into());
         return Ok(());
@@ -560,6 +563,10 @@ fn run_case_inner(c: &Case, rec: &mut CaseRec, strict: bool) -> Result<(), Strin
     let seed = c.seed.as_ref().map(|r| Arc::new(related_bytes(&source, r)));
     let mut fails: Vec<StepFail> = vec![];
     let input_len = m.bytes.len();
+    if (risky(&m) || c.l2) && std::env::var("BVERIF_NO_L2").is_ok() {
+        rec.excluded = Some("needs_cli_process_skipped_in_fuzz_target".into());
+        return Ok(());
+    }
     if risky(&m) || c.l2 {
         // out of process: the real CLI
         let dir = worker_dir("C15");
@@ -619,7 +626,7 @@ fn run_case_inner(c: &Case, rec: &mut CaseRec, strict: bool) -> Result<(), Strin
     KNOWN.with(|k| judge(fails, k, strict, rec))
 }
 
-fn run_raw_inner(c: &RawCase, rec: &mut CaseRec, strict: bool) -> Result<(), String> {
+pub fn run_raw_inner(c: &RawCase, rec: &mut CaseRec, strict: bool) -> Result<(), String> {
     let mut bytes = match &c.base {
         Some((src, cfg)) if cfg.chunker.is_valid() => {
             let source = expand(src);
@@ -653,6 +660,10 @@ fn run_raw_inner(c: &RawCase, rec: &mut CaseRec, strict: bool) -> Result<(), Str
     let mut fails = vec![];
     let dsf = if bytes.len() >= 14 { u64::from_le_bytes(bytes[6..14].try_into().unwrap()) } else { 0 };
     MAX_DECLARED.with(|x| x.set(u32::MAX as u64));
+    if dsf > (1 << 30) && (bytes.starts_with(fmt::MAGIC) || bytes.starts_with(fmt::LEGACY_MAGIC)) && std::env::var("BVERIF_NO_L2").is_ok() {
+        rec.excluded = Some("needs_cli_process_skipped_in_fuzz_target".into());
+        return Ok(());
+    }
     if dsf > (1 << 30) && (bytes.starts_with(fmt::MAGIC) || bytes.starts_with(fmt::LEGACY_MAGIC)) {
         let dir = worker_dir("C15");
         clean_dir(&dir);
@@ -665,7 +676,7 @@ fn run_raw_inner(c: &RawCase, rec: &mut CaseRec, strict: bool) -> Result<(), Str
     } else {
         let n = bytes.len();
         let reader = IoReader::new(crate::iod::FragReader::from_vec(bytes, ReadScript::full()));
-        pipeline(reader, n, u32::MAX as u64 * 4, None, &mut fails, rec);
+        pipeline(reader, n, u32::MAX as u64 * 4, c.seed.clone().map(Arc::new), &mut fails, rec);
         rec.level = Some("L1");
     }
     rec.nontrivial = one_bit;
@@ -675,7 +686,7 @@ fn run_raw_inner(c: &RawCase, rec: &mut CaseRec, strict: bool) -> Result<(), Str
     KNOWN.with(|k| judge(fails, k, strict, rec))
 }
 
-fn case_strategy() -> impl Strategy<Value = Case> {
+pub fn case_strategy() -> impl Strategy<Value = Case> {
     (
         prop_oneof![
             3 => prop::collection::vec(prop_oneof![(1u32..400, any::<u32>()).prop_map(|(n, seed)| Seg::Random { n, seed }), (1u32..400, any::<u32>()).prop_map(|(n, seed)| Seg::Text { n, seed }), (1u32..400).prop_map(|n| Seg::Const { b: 0, n })], 1..3),
@@ -700,14 +711,14 @@ fn raw_strategy() -> impl Strategy<Value = RawCase> {
                 v.append(&mut b);
                 b = v;
             }
-            RawCase { base: None, bytes: b, flip: None, trunc: None }
+            RawCase { base: None, bytes: b, flip: None, trunc: None, seed: None }
         }),
         // one flipped bit
-        4 => (base.clone(), any::<u32>()).prop_map(|(b, f)| RawCase { base: Some(b), bytes: vec![], flip: Some(f), trunc: None }),
+        4 => (base.clone(), any::<u32>()).prop_map(|(b, f)| RawCase { base: Some(b), bytes: vec![], flip: Some(f), trunc: None, seed: None }),
         // truncation
-        2 => (base.clone(), any::<u32>()).prop_map(|(b, t)| RawCase { base: Some(b), bytes: vec![], flip: None, trunc: Some(t) }),
+        2 => (base.clone(), any::<u32>()).prop_map(|(b, t)| RawCase { base: Some(b), bytes: vec![], flip: None, trunc: Some(t), seed: None }),
         // overwrite + maybe flip
-        2 => (base, prop::collection::vec(any::<u8>(), 1..10), prop::option::of(any::<u32>())).prop_map(|(b, bytes, flip)| RawCase { base: Some(b), bytes, flip, trunc: None }),
+        2 => (base, prop::collection::vec(any::<u8>(), 1..10), prop::option::of(any::<u32>())).prop_map(|(b, bytes, flip)| RawCase { base: Some(b), bytes, flip, trunc: None, seed: None }),
     ]
 }
 
